@@ -266,3 +266,34 @@ def operator_chain(ctx, rule: str, only: typing.Optional[set[str]] = None) -> No
                         loc=f'{parser.module.relpath}:{val.lineno}',
                     )
     ctx.floor(rule, n, 4)
+
+
+# --------------------------------------------------------------------------------------------------
+# R-ELEMENT
+# --------------------------------------------------------------------------------------------------
+def r_element(ctx, func_refs: typing.Iterable[str], rule: str = 'R-ELEMENT') -> int:
+    """Origin sets are computed over ``Element`` (every origin-bound feature), not over its ``Column`` subclass:
+    ``Column.dissect`` silently ignores elements bound to a Reference (self-joins, aliased sources)."""
+    prog = ctx.prog
+    element = prog.cls(f'{SERIES}:Element')
+    n = 0
+    for ref in func_refs:
+        fn = prog.func(ref)
+        sites = [c for c in core.calls_in(fn.node) if isinstance(c.func, ast.Attribute) and c.func.attr == 'dissect']
+        if not sites:
+            ctx.fail(rule, fn, 'origin extraction through <Element>.dissect(...) not found (idiom not recognised)', fn.node, key='dissect-missing')
+            continue
+        uses_origin = any(isinstance(x, ast.Attribute) and x.attr == 'origin' for x in core.walk_local(fn.node))
+        for call in sites:
+            recv = prog.resolve_expr(fn, call.func.value)
+            n += 1
+            if not isinstance(recv, core.ClassInfo):
+                ctx.fail(rule, fn, f'dissect receiver `{core.src(call.func.value)}` not resolvable', call)
+                continue
+            good = recv is element or not recv.is_subclass_of(element) or not uses_origin
+            ctx.check(
+                good, rule, fn,
+                f'origin set computed by {recv.name}.dissect: ' + ('covers every origin-bound element' if good else 'elements bound to a Reference origin are ignored'),
+                call, receiver=recv.ref,
+            )
+    return n
